@@ -234,22 +234,30 @@ theorem notifyNameChange_fids (fuel n : Nat) : Pres FidsSame (notifyNameChange f
       · exact Pres.pure _
     · exact Pres.forEach _ _ (fun e => ih _)
 
+theorem renameMoved_fids (t tn : Nat) (n : SafeName) (tf : Nat) (l : List (Nat × SafeName)) :
+    Pres FidsSame (renameMoved t tn n tf l) := by
+  induction l with
+  | nil => exact Pres.pure _
+  | cons e rest ih =>
+    unfold renameMoved
+    refine Pres.bind (getRef_fids _) (fun x => Pres.ite ?_ ih)
+    refine Pres.bind (incRef_fids _) (fun _ => Pres.bind (whenSome_fids _ _ (fun p => decRefU_fids p)) (fun _ => ?_))
+    refine Pres.bind (setRef_fids _ _) (fun _ => Pres.bind (incRef_fids _) (fun _ => ?_))
+    refine Pres.bind (addChild_fids _ _ _) (fun _ => Pres.bind (callRenamed_fids _ _ _) (fun _ => ?_))
+    exact Pres.bind ih (fun _ => Pres.pure _)
+
 theorem renameChildTo_fids (f : Nat) (o : SafeName) (t : Nat) (n : SafeName) :
     Pres FidsSame (renameChildTo f o t n) := by
   unfold renameChildTo
   refine Pres.bind (getRef_fids _) (fun fx => Pres.bind (getRef_fids _) (fun tx => ?_))
   refine Pres.bind (markChildDeleted_fids _ _) (fun _ => Pres.bind (getNode_fids _) (fun fnode => ?_))
-  refine Pres.bind (setNode_fids _ _) (fun _ => Pres.bind ?_ (fun _ => ?_))
-  · refine Pres.forEach _ _ (fun e => Pres.bind (getRef_fids _) (fun x => Pres.ite ?_ (Pres.pure _)))
-    refine Pres.bind (incRef_fids _) (fun _ => Pres.bind ?_ (fun _ => ?_))
-    · exact whenSome_fids _ _ (fun p => decRefU_fids p)
-    · refine Pres.bind (setRef_fids _ _) (fun _ => Pres.bind (incRef_fids _) (fun _ => ?_))
-      exact Pres.bind (addChild_fids _ _ _) (fun _ => Pres.bind (callRenamed_fids _ _ _) (fun _ => decRefU_fids _))
-  · split
-    · refine Pres.bind (getNode_fids _) (fun tn => ?_)
-      refine Pres.bind (panicIf_fids _) (fun _ => ?_)
-      exact Pres.bind (setNode_fids _ _) (fun _ => Pres.bind Pres.getS (fun _ => notifyNameChange_fids _ _))
-    · exact Pres.pure _
+  refine Pres.bind (setNode_fids _ _) (fun _ => Pres.bind (renameMoved_fids _ _ _ _ _) (fun pinned => ?_))
+  refine Pres.bind (Pres.forEach _ _ (fun r => decRefU_fids r)) (fun _ => ?_)
+  split
+  · refine Pres.bind (getNode_fids _) (fun tn => ?_)
+    refine Pres.bind (panicIf_fids _) (fun _ => ?_)
+    exact Pres.bind (setNode_fids _ _) (fun _ => Pres.bind Pres.getS (fun _ => notifyNameChange_fids _ _))
+  · exact Pres.pure _
 
 theorem dirGuard_fids (r : Nat) : Pres FidsSame (dirGuard r) := by
   unfold dirGuard
